@@ -189,6 +189,8 @@ class TlcResult:
     def __init__(self, rc, text, wall):
         self.rc, self.text, self.wall = rc, text, wall
         m = re.findall(r"(\d[\d,]*) states generated, (\d[\d,]*) distinct states found", text)
+        if not m:      # killed before its final line: the last progress report
+            m = re.findall(r"(\d[\d,]*) states generated \([^)]*\), (\d[\d,]*) distinct states found", text)
         self.generated = int(m[-1][0].replace(",", "")) if m else 0
         self.distinct = int(m[-1][1].replace(",", "")) if m else 0
         self.violated = re.findall(r"Invariant (\w+) is violated", text) + re.findall(r"The invariant of (\w+) is equal to FALSE", text)
